@@ -116,6 +116,9 @@ pub struct Sub {
     pub dealloc_lists_and_own: u32,
     pub results_lift: u32,
     pub started_seen_params_alive: Option<bool>,
+    /// a cancellation that arrives while STARTING finds the callee already started and
+    /// finished (RETURNED_CANCELLED) instead of not started (STARTED_CANCELLED)
+    pub cancel_late: bool,
 }
 
 #[derive(Clone, Copy, PartialEq, Eq, Debug)]
@@ -644,6 +647,11 @@ impl Host {
         }
         let st = self.subs[idx].state;
         let r = match st {
+            ST_STARTING if self.subs[idx].cancel_late => {
+                // the callee started (and read its parameters) before the cancellation reached it
+                self.sub_observe_start(idx);
+                ST_RETURNED_CANCELLED
+            }
             ST_STARTING => ST_STARTED_CANCELLED,
             ST_STARTED => ST_RETURNED_CANCELLED,
             other => {
